@@ -199,7 +199,25 @@ fn annotation_src(ty: &Type) -> Option<String> {
         } => None,
         Type::Any => None,
         _ if ty.is_no_value() => None,
+        _ if !is_fully_known(ty) => None,
         _ => Some(ty.to_string()),
+    }
+}
+
+/// Is every part of `ty` a type that we can write as a hint? A type
+/// containing `Any`, `NoValue` (e.g. the `List<NoValue>` inferred for
+/// `[]`) or a type error is not: the hint would not parse, or would
+/// reject values that the code accepts today.
+fn is_fully_known(ty: &Type) -> bool {
+    match ty {
+        Type::Any | Type::Error { .. } => false,
+        _ if ty.is_no_value() => false,
+        Type::Tuple(elem_tys) => elem_tys.iter().all(is_fully_known),
+        Type::Fun {
+            params, return_, ..
+        } => params.iter().all(is_fully_known) && is_fully_known(return_),
+        Type::UserDefined { args, .. } => args.iter().all(is_fully_known),
+        Type::TypeParameter(_) => true,
     }
 }
 
